@@ -10,7 +10,8 @@
 (*           mf write cache name (character sequence), noname              *)
 (*           seq src split  ok, ctx = _get_context()  or  exc + the words  *)
 (*                          of the exception message                       *)
-(*   ran, rt   contexts of the values that left the pipeline               *)
+(*   ran, rt   contexts of the values that left the pipeline; rtx = they   *)
+(*             are compared exactly (at most one Cache in the pipeline)    *)
 (*   only  0 = check everything; i > 0 = only element i; Len(els)+1 =    *)
 (*         only the run-time part (used to localise a rejection)           *)
 (* The freedom for bare accumulator branches is existential: a record is   *)
@@ -46,7 +47,7 @@ RunOk(E, pol, w, r) ==
   /\ r.ran
   /\ (\A j \in 1..Len(E) : E[j].k # "ucfs") =>
         \A j \in 1..Len(r.rt) : DOMAIN r.rt[j].m \subseteq {"output", "rt"}
-  /\ ~OutOf(E, pol, Len(E), Cur(Empty)).err =>
+  /\ (r.rtx /\ ~OutOf(E, pol, Len(E), Cur(Empty)).err) =>
         LET seen == [j \in 1..Len(E) |-> w[j].ctx] IN
         Range(r.rt) = Range(RunRoot(E, seen))
 
